@@ -90,27 +90,6 @@ def _block_of(st):
     return None, -1
 
 
-def _stable_until(st, use, names) -> bool:
-    """True when `use` lies in a later sibling statement of `st` (same block) and no statement from st (exclusive) to that sibling
-    (inclusive) stores any of `names`: the value computed at `st` is still current at `use`."""
-    block, i = _block_of(st)
-    if block is None or use is None:
-        return False
-    anc = use
-    while anc is not None and not any(anc is x for x in block):
-        anc = getattr(anc, "_p", None)
-    if anc is None:
-        return False
-    j = next(k for k, x in enumerate(block) if x is anc)
-    if j <= i:
-        return False
-    for x in block[i + 1:j + 1]:
-        for t, _ in stores_in(x):
-            if isinstance(t, ast.Name) and t.id in names:
-                return False
-    return True
-
-
 def _stmt_of(node):
     while node is not None and not isinstance(node, ast.stmt):
         node = getattr(node, "_p", None)
@@ -150,24 +129,107 @@ def _live_stores(x):
     return stores_in(x)
 
 
-def reaching_definition(fn, name, use, allow_calls=False):
-    """Flow-sensitive: the plain assignment `name = <pure expr>` that is the only definition reaching `use`, found by walking
-    backwards over the preceding siblings of the use, then of its enclosing statements. The first statement met that stores
-    `name` must be that plain assignment itself (a store nested in a compound statement met on the way is ambiguous -> None);
-    no statement passed over may store an operand of the defining expression; when the walk leaves a loop, the whole loop must
-    not store `name` or an operand (the definition would not be re-evaluated on the next iteration)."""
-    st = _stmt_of(use)
+UNPACK_AS_SUBSCRIPT = True    # `w, h = V` makes w == V[0], h == V[1]
+
+
+def _value_bound_by(st, name):
+    """The expression bound to `name` by the plain statement `st` (`name = v`, `a, name = x, v`, `a, name = V` -> V[1],
+    `name: T = v`), or None when st binds it in another way (augmented, loop target, del, starred...)."""
+    if isinstance(st, ast.Assign):
+        for tgt in st.targets:
+            if isinstance(tgt, ast.Name) and tgt.id == name:
+                return st.value
+            if isinstance(tgt, (ast.Tuple, ast.List)) and len(st.targets) == 1:
+                v = _unpack_component(tgt, st.value, name)
+                if v is not None:
+                    return v
+                if UNPACK_AS_SUBSCRIPT and not isinstance(st.value, (ast.Tuple, ast.List)):
+                    stars = [i for i, x in enumerate(tgt.elts) if isinstance(x, ast.Starred)]
+                    n_ = len(tgt.elts)
+                    if not stars:
+                        idx = [i for i, x in enumerate(tgt.elts) if isinstance(x, ast.Name) and x.id == name]
+                        if len(idx) == 1:
+                            return ast.Subscript(value=st.value, slice=ast.Constant(value=idx[0]), ctx=ast.Load())
+                    elif len(stars) == 1:
+                        # `a, b, *rest, z = V`:  a == V[0], b == V[1], rest == V[2:-1], z == V[-1]
+                        k = stars[0]
+                        for i, x in enumerate(tgt.elts):
+                            if isinstance(x, ast.Name) and x.id == name:
+                                return ast.Subscript(value=st.value, slice=ast.Constant(value=i if i < k else i - n_), ctx=ast.Load())
+                            if isinstance(x, ast.Starred) and isinstance(x.value, ast.Name) and x.value.id == name:
+                                after = n_ - 1 - k
+                                sl = ast.Slice(lower=ast.Constant(value=k) if k else None, upper=ast.UnaryOp(op=ast.USub(), operand=ast.Constant(value=after)) if after else None, step=None)
+                                return ast.Subscript(value=st.value, slice=sl, ctx=ast.Load())
+        return None
+    if isinstance(st, ast.AnnAssign) and st.value is not None and isinstance(st.target, ast.Name) and st.target.id == name:
+        return st.value
+    return None
+
+
+def _binds(x, name) -> bool:
+    return any(isinstance(t, ast.Name) and t.id == name for t, _ in _live_stores(x))
+
+
+def _last_value_in(stmts, name, fn, allow_calls):
+    """Value of `name` at the end of the statement list, if the list (which completes normally) determines it: the last live
+    store is a plain top-level binding, or an if/else merge; 'NONE' when the list does not bind it."""
+    for x in reversed(stmts):
+        if not _binds(x, name):
+            continue
+        v = _value_bound_by(x, name)
+        if v is not None:
+            return v
+        if isinstance(x, ast.If):
+            return _merge_if(x, name, fn, allow_calls)
+        return None
+    return "NONE"
+
+
+def _merge_if(x, name, fn, allow_calls):
+    """phi-node: the value of `name` after `if t: A else: B` as `a if t else b` (a branch that always leaves contributes nothing;
+    a branch that does not bind the name contributes the value reaching the `if`)."""
+    vals = []
+    for br in (x.body, x.orelse):
+        if _ends(br):
+            vals.append("DEAD")
+            continue
+        v = _last_value_in(br, name, fn, allow_calls) if br else "NONE"
+        if v is None:
+            return None
+        if v == "NONE":
+            b, params = _bindings(fn)
+            if name not in params and all(st.lineno >= x.lineno for _, st in b.get(name, [])):
+                vals.append("DEAD")      # unbound on this path: a path that reads the name cannot come through here
+                continue
+            v = reaching_definition(fn, name, x, allow_calls, _at_stmt=True)
+            if v is None:
+                return None
+            if v is ENTRY:
+                v = ast.Name(id=f"{name}__0" if name in params else name, ctx=ast.Load())
+        vals.append(v)
+    if vals[0] == "DEAD" and vals[1] == "DEAD":
+        return None
+    if vals[0] == "DEAD":
+        return vals[1]
+    if vals[1] == "DEAD":
+        return vals[0]
+    return ast.IfExp(test=x.test, body=vals[0], orelse=vals[1])
+
+
+def reaching_definition(fn, name, use, allow_calls=False, _at_stmt=False):
+    """Flow-sensitive: the expression whose value `name` holds at `use`, found by walking backwards over the preceding siblings
+    of the use, then of its enclosing statements. The first statement met that (live-)stores `name` must be a plain binding, or an
+    if/else whose branches determine it (merged into a conditional expression); anything else (loop-carried, augmented, nested in
+    try...) is ambiguous -> None. `with E as name` on the way up gives E. Operand names inside the result keep their own sites
+    (see expand)."""
+    st = use if _at_stmt else _stmt_of(use)
     if st is None:
         return None
-    passed = []
-    loops = []
     cur = st
-    found = None
-    while cur is not None and cur is not fn and found is None:
+    while cur is not None and cur is not fn:
         block, i = _block_of(cur)
+        par = getattr(cur, "_p", None)
         if block is None:
-            # e.g. an except handler body: climb
-            par = getattr(cur, "_p", None)
             if isinstance(par, ast.ExceptHandler):
                 block, i = par.body, next((k for k, x in enumerate(par.body) if x is cur), -1)
                 if i < 0:
@@ -175,123 +237,137 @@ def reaching_definition(fn, name, use, allow_calls=False):
             else:
                 return None
         for x in reversed(block[:i]):
-            stores = [t for t, _ in _live_stores(x) if isinstance(t, ast.Name) and t.id == name]
-            if stores:
-                if isinstance(x, ast.Assign) and len(x.targets) == 1 and isinstance(x.targets[0], ast.Name) and x.targets[0].id == name:
-                    found = x
-                elif isinstance(x, ast.AnnAssign) and x.value is not None and isinstance(x.target, ast.Name) and x.target.id == name:
-                    found = x
-                else:
-                    return None
-                break
-            passed.append(x)
-        if found is None:
-            par = getattr(cur, "_p", None)
-            if isinstance(par, ast.ExceptHandler):
-                par = getattr(par, "_p", None)
-            if isinstance(par, (ast.With, ast.AsyncWith)):
-                hit = [it for it in par.items if isinstance(it.optional_vars, ast.Name) and it.optional_vars.id == name]
-                if hit:
-                    if not allow_calls:
-                        return None
-                    found = ast.Assign(targets=[hit[0].optional_vars], value=hit[0].context_expr)
-                    break
-            if isinstance(par, (ast.For, ast.AsyncFor)) and any(isinstance(x, ast.Name) and x.id == name for x in ast.walk(par.target)):
+            if not _binds(x, name):
+                continue
+            v = _value_bound_by(x, name)
+            if v is None and isinstance(x, ast.If):
+                v = _merge_if(x, name, fn, allow_calls)
+            if v is None or not (allow_calls or is_pure(v)):
                 return None
-            if isinstance(par, (ast.For, ast.While, ast.AsyncFor)):
-                loops.append(par)
-            if isinstance(par, (ast.FunctionDef, ast.AsyncFunctionDef, ast.Lambda, ast.ClassDef)) and par is not fn:
+            return v
+        if isinstance(par, ast.ExceptHandler):
+            par = getattr(par, "_p", None)
+        if isinstance(par, (ast.With, ast.AsyncWith)):
+            hit = [it for it in par.items if isinstance(it.optional_vars, ast.Name) and it.optional_vars.id == name]
+            if hit:
+                return hit[0].context_expr if allow_calls else None
+        if isinstance(par, (ast.For, ast.AsyncFor, ast.While)):
+            # loop-carried: a store anywhere in the loop may reach the use through the back edge
+            if any(isinstance(t, ast.Name) and t.id == name for t, _ in stores_in(par)):
                 return None
-            cur = par
-    if found is None or not (allow_calls or is_pure(found.value)):
-        return None
-    ops = {n.id for n in ast.walk(found.value) if isinstance(n, ast.Name)}
-    for x in passed:
-        for t, _ in _live_stores(x):
-            if isinstance(t, ast.Name) and t.id in ops:
+        if isinstance(par, ast.Try) and any(cur is x for x in par.finalbody + [y for h in par.handlers for y in h.body]):
+            # after an exception anything bound in the try body may or may not have been bound
+            if any(isinstance(t, ast.Name) and t.id == name for x in par.body for t, _ in stores_in(x)):
                 return None
-    # the statement containing the use itself must not rebind operands before the use (approximation: not at all)
-    for t, _ in stores_in(st):
-        if isinstance(t, ast.Name) and (t.id in ops) and not isinstance(st, (ast.For, ast.While, ast.If, ast.With, ast.Try)):
+        if isinstance(par, (ast.FunctionDef, ast.AsyncFunctionDef, ast.Lambda, ast.ClassDef)) and par is not fn:
             return None
-    for lp in loops:
-        for t, _ in stores_in(lp):
-            if isinstance(t, ast.Name) and (t.id in ops or t.id == name):
-                return None
-    return found.value
+        cur = par
+    return ENTRY if cur is fn else None
+
+
+ENTRY = ast.Name(id="<entry>", ctx=ast.Load())      # sentinel: no store reaches the site - the name still holds its value at function entry
 
 
 def definition(fn, name, use=None, allow_calls=False, opaque=()):
-    """The unique pure defining expression of local `name` in fn, or None."""
+    """The pure expression defining local `name` (as seen from `use` when given), or None."""
     b, params = _bindings(fn)
     if name not in b:
         return None
-    if name in params:
-        return reaching_definition(fn, name, use, allow_calls) if use is not None else None
-    if len(b[name]) != 1:
-        return reaching_definition(fn, name, use, allow_calls) if use is not None else None
-    t, st = b[name][0]
-    if isinstance(st, ast.Assign) and len(st.targets) == 1:
-        if st.targets[0] is t:
-            v = st.value
-        elif isinstance(st.targets[0], (ast.Tuple, ast.List)):
-            v = _unpack_component(st.targets[0], st.value, name)
-            if v is None and UNPACK_AS_SUBSCRIPT and not isinstance(st.value, (ast.Tuple, ast.List)):
-                idx = [i for i, x in enumerate(st.targets[0].elts) if isinstance(x, ast.Name) and x.id == name]
-                if len(idx) == 1 and not any(isinstance(x, ast.Starred) for x in st.targets[0].elts):
-                    v = ast.Subscript(value=st.value, slice=ast.Constant(value=idx[0]), ctx=ast.Load())
-        else:
-            v = None
-        if v is not None and (allow_calls or is_pure(v)):
-            # operands must not be rebound after the definition (conservative: bound at most once in the function)
-            multi = {n.id for n in ast.walk(v) if isinstance(n, ast.Name) and n.id in b and len(b[n.id]) > 1 and n.id not in opaque}
-            if multi and not _stable_until(st, use, multi):
-                return None
-            return v
-    if isinstance(st, ast.AnnAssign) and st.value is not None and st.target is t and (allow_calls or is_pure(st.value)):
-        return st.value
-    if isinstance(st, (ast.With, ast.AsyncWith)) and allow_calls:
-        for it in st.items:
-            if it.optional_vars is t:
-                return it.context_expr
-    return None
+    if use is not None:
+        r = reaching_definition(fn, name, use, allow_calls)
+        return r
+    if name in params or len(b[name]) != 1:
+        return None
+    v = _value_bound_by(b[name][0][1], name)
+    if v is None and isinstance(b[name][0][1], (ast.With, ast.AsyncWith)) and allow_calls:
+        v = next((it.context_expr for it in b[name][0][1].items if it.optional_vars is b[name][0][0]), None)
+    if v is None or not (allow_calls or is_pure(v)):
+        return None
+    # without a use site: operands must be bound at most once in the function
+    if any(isinstance(n, ast.Name) and n.id in b and (len(b[n.id]) > 1 or n.id in params) and n.id not in opaque for n in ast.walk(v)):
+        return None
+    return v
 
 
-UNPACK_AS_SUBSCRIPT = True    # `w, h = V` makes w == V[0], h == V[1] (V pure)
+class _Unstable(Exception):
+    pass
 
 
-def expand(fn, e, depth: int = 5, keep=(), use=None, allow_calls=False):
-    """Copy of e with single-assignment pure locals replaced by their definitions. With allow_calls (see trace()) definitions
-    containing arbitrary calls are substituted too: the result then describes *where a value comes from* (a backward slice
-    as one expression), not an expression that could replace the original."""
+def _pos(n):
+    return (getattr(n, "lineno", 0), getattr(n, "col_offset", 0))
+
+
+def _rebound_between(fn, name, site, use) -> bool:
+    """`name` read at `site` (inside a definition) may hold another value when control reaches `use`."""
+    b, _ = _bindings(fn)
+    if name not in b:
+        return False
+    s_st, u_st = _stmt_of(site), _stmt_of(use)
+    if s_st is None or u_st is None:
+        return True
+    lo, hi = s_st.lineno, getattr(u_st, "end_lineno", u_st.lineno)
+    for t, st in b[name]:
+        if lo < st.lineno <= hi and st is not u_st:
+            return True
+        if st is u_st and isinstance(u_st, (ast.Assign, ast.AugAssign, ast.AnnAssign)) and s_st is not u_st:
+            # `x = f(x)` at the use statement itself: the read happens before the store - fine
+            continue
+    # loops that contain the use but not the site: any store in them can come round the back edge
+    a = getattr(u_st, "_p", None)
+    while a is not None and a is not fn:
+        if isinstance(a, (ast.For, ast.AsyncFor, ast.While)) and not any(x is s_st for x in ast.walk(a)):
+            if any(isinstance(t, ast.Name) and t.id == name for t, _ in stores_in(a)):
+                return True
+        a = getattr(a, "_p", None)
+    return False
+
+
+def expand(fn, e, depth: int = 6, keep=(), use=None, allow_calls=False):
+    """Copy of e with locals replaced by the expressions that define them (flow-sensitively, see reaching_definition). Every name is
+    read at its own site: in `x = a + 1; a = 5; f(x)` the `a` of `a + 1` is the old one, so `x` is only replaced when the names
+    left free in its definition cannot have been rebound between the definition and the use (otherwise `x` stays).
+    With allow_calls (see trace()) definitions containing arbitrary calls are substituted too: the result then describes *where a
+    value comes from* (a backward slice as one expression), not an expression that could replace the original."""
     if fn is None or depth <= 0:
         return e
     if use is None:
         use = e if hasattr(e, "_p") else None
 
-    def ex(n, depth):
+    def ex(n, depth, outer):
         if isinstance(n, list):
-            return [ex(x, depth) for x in n]
+            return [ex(x, depth, outer) for x in n]
         if not isinstance(n, ast.AST):
             return n
         if isinstance(n, ast.Lambda):
             return clone(n)
-        if isinstance(n, ast.Name) and isinstance(n.ctx, ast.Load) and n.id not in keep and depth > 0:
-            # the site of a name that belongs to the function's own tree is the name itself (its value *there*); names of
-            # synthesised expressions (expected-value texts) are read at the site of the comparison
+        if isinstance(n, ast.Name) and isinstance(n.ctx, ast.Load):
             site = n if hasattr(n, "_p") else use
-            d = definition(fn, n.id, site, allow_calls, keep)
-            if d is not None:
-                return ex(d, depth - 1)
+            if n.id not in keep and depth > 0 and site is not None:
+                d = definition(fn, n.id, site, allow_calls, keep)
+                if d is ENTRY:
+                    # a parameter read before any rebinding; when it is rebound later the entry value gets its own symbol
+                    b_, params_ = _bindings(fn)
+                    return ast.Name(id=f"{n.id}__0" if (n.id in params_ and n.id in b_) else n.id, ctx=ast.Load())
+                if d is not None:
+                    try:
+                        return ex(d, depth - 1, outer if outer is not None else site)
+                    except _Unstable:
+                        pass
+            if outer is not None and hasattr(n, "_p") and n.id not in keep and _rebound_between(fn, n.id, n, outer):
+                raise _Unstable(n.id)
+            return ast.Name(id=n.id, ctx=ast.Load())
         new = type(n)()
         for f in n._fields:
             if hasattr(n, f):
-                setattr(new, f, ex(getattr(n, f), depth))
+                setattr(new, f, ex(getattr(n, f), depth, outer))
         for a_ in ("lineno", "col_offset", "end_lineno", "end_col_offset"):
             if hasattr(n, a_):
                 setattr(new, a_, getattr(n, a_))
         return new
-    return ex(e, depth)
+    try:
+        return ex(e, depth, None)
+    except _Unstable:
+        return clone(e)
 
 
 def trace(fn, e, depth: int = 6, use=None, keep=()):
